@@ -39,6 +39,7 @@ def run_case(ctx, case):
     f = r[1]
     if W is not None:
         f.weights = list(W)
+    rows = {}
     for j in range(p + 1):
         ev = impl(lambda: f[:, j])
         if ev[0] != "ok":
@@ -54,6 +55,7 @@ def run_case(ctx, case):
                 continue
             vals = tuple(frac(x) for x in r[1])
             want = tuple(spec[1])
+            rows[(j, u)] = want
             l2(rec, "basis.eval", case, vals, mod[1], mod[0] == "ok" and vals == tuple(mod[1]))
             if vals != want:
                 rec.violation("F[i,j](u) differs from Cox-de Boor", case, j=j, u=str(u), observed=ser(vals), expected=ser(want))
@@ -65,6 +67,29 @@ def run_case(ctx, case):
                     rec.violation("non-zero outside [u_i, u_(i+j+1)]", case, j=j, i=i, u=str(u))
             if j == p and sum(vals) != 1:
                 rec.violation("top-degree functions do not sum to one", case, u=str(u), observed=str(sum(vals)))
+    # a single function selected by an integer index — f[i], f[i - n], f[i, j] — is the entry i of that same row, at every parameter
+    # (every knot included) and for every index
+    l3(rec, "single-index-forms")
+    jx = ctx["rng"].randrange(p + 1)
+    for i in range(n):
+        forms = [("f[i]", lambda: f[i], p), ("f[i-n]", lambda: f[i - n], p), ("f[i,j]", lambda: f[i, jx], jx), ("f[i-n,p]", lambda: f[i - n, p], p)]
+        for name, sel, j_ in forms:
+            ev = impl(sel)
+            if ev[0] != "ok":
+                rec.violation("%s raised" % name, case, i=i, j=j_, observed=ev[1])
+                break
+            bad = False
+            for u in us:
+                if (j_, u) not in rows:
+                    continue
+                r = impl(lambda: ev[1](u))
+                if r[0] != "ok" or frac(r[1]) != rows[(j_, u)][i]:
+                    rec.violation("%s(u) is not the entry i of the Cox-de Boor row" % name, case, i=i, j=j_, u=str(u),
+                                  observed=str(r[1])[:80], expected=str(rows[(j_, u)][i]))
+                    bad = True
+                    break
+            if bad:
+                return
     # float parameters on exact knots: the float nearest to a rational knot lies on one definite side of it
     for k in knots[1:-1]:
         uf = float(k)
